@@ -1,6 +1,160 @@
-import Asts.Spec.Reconcile
+import Asts.Proofs.L1_b_C07
 
-/-! # C07 — property theorems (under construction) -/
+/-! # C07 — rolling update honours the partition and goes highest-first; OnDelete never restarts
+
+Property theorems only; the lemmas live in `Asts/Proofs/L1_b_*.lean`. `updateStatefulSet` is the model of the core
+reconcile function (tied to the Go code by the `reconcile` engine), `C07` is the monitor of `Spec/Reconcile.lean`,
+`observe` is what a recording pod control sees of the model's actions. All statements hold for both pod management
+policies.
+
+Hypotheses, and why each is there:
+* `v.replicas = some r`, `0 ≤ r` — the CRD makes `replicas` required with minimum 0 (`C07_holds_total` folds both into
+  `0 ≤ replicasOf v`);
+* `wfSnapshot pods = true` — the precondition under which `monitorRc` evaluates the clause (`C07.rolling`): every pod
+  object carries a phase (so an object that is "not created" is one this reconcile built, with the revision it chose)
+  and no two pods parse to the same ordinal;
+* `IdsOk pods` — the monitor recognises the pod handed to a delete by its id (see `Props/C05.lean`); the engine numbers
+  pods by position (`idsOk_of_positions`). The clause theorems on the model's own actions do not need it.
+
+`partitionOf` (spec) is the raw partition, `partOf` (model, `getRollingUpdatePartition`) clamps it at 0:
+`partOf_eq_max`. -/
 namespace Asts.C07
+open Asts
+
+/-- **Headline.** The monitor `C07` is true on the model's output for every spec (both strategies, both policies, any
+    partition), every snapshot with phases and distinct ordinals and every fault plan. `Prop` reading: the clause theorems
+    below, with `updateDeletes_eq` relating the monitor's update-class deletes to the deletes of the model's update walk. -/
+theorem C07_holds (v : SetView) (cur upd : String) (pods : List Pod) (f : Faults) (r : Int)
+    (hr : v.replicas = some r) (h0 : 0 ≤ r) (hwf : wfSnapshot pods = true) (hids : IdsOk pods) :
+    C07 v cur upd pods (observe (updateStatefulSet v cur upd pods f).1.acts) = true :=
+  Asts.C07_holds v cur upd pods f r hr h0 hwf hids
+
+/-- The headline with the replica count read as the monitor reads it (`replicasOf v`, 0 for a nil pointer). -/
+theorem C07_holds_total (v : SetView) (cur upd : String) (pods : List Pod) (f : Faults)
+    (h0 : 0 ≤ replicasOf v) (hwf : wfSnapshot pods = true) (hids : IdsOk pods) :
+    C07 v cur upd pods (observe (updateStatefulSet v cur upd pods f).1.acts) = true :=
+  Asts.C07_holds_total v cur upd pods f h0 hwf hids
+
+/-- The headline with pod ids given as positions in the snapshot, as the engine and the driver number them. -/
+theorem C07_holds_positions (v : SetView) (cur upd : String) (pods : List Pod) (f : Faults) (r : Int)
+    (hr : v.replicas = some r) (h0 : 0 ≤ r) (hwf : wfSnapshot pods = true)
+    (hpos : ∀ (i : Nat) (p : Pod), pods[i]? = some p → p.id = i) (hlen : pods.length < freshId) :
+    C07 v cur upd pods (observe (updateStatefulSet v cur upd pods f).1.acts) = true :=
+  Asts.C07_holds v cur upd pods f r hr h0 hwf (idsOk_of_positions hpos hlen)
+
+/-- **OnDelete never restarts**: under OnDelete the update walk deletes nothing — any spec, snapshot, fault plan. -/
+theorem onDelete_no_update_delete (v : SetView) (cur upd : String) (pods : List Pod) (f : Faults)
+    (hod : v.strat = .onDelete) (o : Int) (id : Nat) :
+    Action.delete o id .update ∉ (updateStatefulSet v cur upd pods f).1.acts :=
+  C07_onDelete v cur upd pods f hod o id
+
+/-- The same on the monitor's side: under OnDelete no observed delete is of class `update`. -/
+theorem onDelete_no_update_class_delete (v : SetView) (cur upd : String) (pods : List Pod) (f : Faults) (r : Int)
+    (hr : v.replicas = some r) (h0 : 0 ≤ r) (hids : IdsOk pods) (hod : v.strat = .onDelete) :
+    updateDeletes (desired r v.slots) pods (observe (updateStatefulSet v cur upd pods f).1.acts) = [] :=
+  C07_onDelete_observed v cur upd pods f r hr h0 hids hod
+
+/-- **At most one pod is taken down for update per reconcile** (both policies) — any spec, snapshot, fault plan. -/
+theorem at_most_one_update_delete (v : SetView) (cur upd : String) (pods : List Pod) (f : Faults) :
+    ((updateStatefulSet v cur upd pods f).1.acts.filter Action.isUpdDel).length ≤ 1 :=
+  C07_one_update_delete v cur upd pods f
+
+/-- The same on the monitor's side. -/
+theorem at_most_one_update_class_delete (v : SetView) (cur upd : String) (pods : List Pod) (f : Faults) (r : Int)
+    (hr : v.replicas = some r) (h0 : 0 ≤ r) (hids : IdsOk pods) :
+    (updateDeletes (desired r v.slots) pods (observe (updateStatefulSet v cur upd pods f).1.acts)).length ≤ 1 :=
+  C07_one_update_delete_observed v cur upd pods f r hr h0 hids
+
+/-- **Partition and order**: a delete by the update walk at `o` is not under OnDelete, has `partitionOf v ≤ o` (and
+    `partOf v ≤ o`), and every desired ordinal above `o` holds a pod of the snapshot that is Running, Ready, not
+    terminating and at the update revision — so the walk goes from the top and one pod is down at a time. -/
+theorem update_delete_above_partition_highest_first (v : SetView) (cur upd : String) (pods : List Pod) (f : Faults)
+    (r : Int) (hr : v.replicas = some r) (h0 : 0 ≤ r) {o : Int} {id : Nat}
+    (h : Action.delete o id .update ∈ (updateStatefulSet v cur upd pods f).1.acts) :
+    v.strat ≠ .onDelete ∧ partitionOf v ≤ o ∧ partOf v ≤ o ∧
+    ∀ i ∈ desired r v.slots, o < i → HealthyAtRev pods upd i :=
+  C07_update_delete v cur upd pods f r hr h0 h
+
+/-- the monitor's update-class deletes of a model run are exactly the deletes of the model's update walk -/
+theorem updateDeletes_eq (v : SetView) (cur upd : String) (pods : List Pod) (f : Faults) (r : Int)
+    (hr : v.replicas = some r) (h0 : 0 ≤ r) (hids : IdsOk pods) :
+    updateDeletes (desired r v.slots) pods (observe (updateStatefulSet v cur upd pods f).1.acts)
+      = (updateStatefulSet v cur upd pods f).1.acts.filterMap updOrd :=
+  C07_updateDeletes_eq v cur upd pods f r hr h0 hids
+
+/-- Every create is at a desired ordinal and carries the revision `newVersionedStatefulSetPod` (`newPodRev`) chooses. -/
+theorem create_revision (v : SetView) (cur upd : String) (pods : List Pod) (f : Faults) (r : Int)
+    (hr : v.replicas = some r) (h0 : 0 ≤ r) (hwf : wfSnapshot pods = true) {o : Int} {rev : String}
+    (h : Action.create o rev ∈ (updateStatefulSet v cur upd pods f).1.acts) :
+    o ∈ desired r v.slots ∧ rev = newPodRev v cur upd o :=
+  C07_create_rev v cur upd pods f r hr h0 hwf h
+
+/-- **Partition present**: pods (re)created below the partition are built from the current revision, those at or above
+    it from the update revision. -/
+theorem create_revision_partition (v : SetView) (cur upd : String) (pods : List Pod) (f : Faults) (r : Int)
+    (hr : v.replicas = some r) (h0 : 0 ≤ r) (hwf : wfSnapshot pods = true) {p : Int} (hru : v.ru = some (some p))
+    {o : Int} {rev : String} (h : Action.create o rev ∈ (updateStatefulSet v cur upd pods f).1.acts) :
+    rev = if o < p then cur else upd :=
+  C07_create_partition v cur upd pods f r hr h0 hwf hru h
+
+/-- **Legacy rule**, stated separately: with RollingUpdate and no `rollingUpdate` block the boundary for creations is
+    `status.currentReplicas`, not "partition 0". -/
+theorem C07_legacy_boundary (v : SetView) (cur upd : String) (pods : List Pod) (f : Faults) (r : Int)
+    (hr : v.replicas = some r) (h0 : 0 ≤ r) (hwf : wfSnapshot pods = true) (hst : v.strat = .rolling)
+    (hru : v.ru = none) {o : Int} {rev : String}
+    (h : Action.create o rev ∈ (updateStatefulSet v cur upd pods f).1.acts) :
+    rev = if o < v.stCurrentReplicas then cur else upd :=
+  Asts.C07_legacy_boundary v cur upd pods f r hr h0 hwf hst hru h
+
+/-- The legacy rule as an equivalence (the two revisions differ): a create at `o` carries `cur` iff
+    `o < status.currentReplicas`. -/
+theorem C07_legacy_boundary_iff (v : SetView) (cur upd : String) (pods : List Pod) (f : Faults) (r : Int)
+    (hr : v.replicas = some r) (h0 : 0 ≤ r) (hwf : wfSnapshot pods = true) (hst : v.strat = .rolling)
+    (hru : v.ru = none) (hne : cur ≠ upd) {o : Int} {rev : String}
+    (h : Action.create o rev ∈ (updateStatefulSet v cur upd pods f).1.acts) :
+    rev = cur ↔ o < v.stCurrentReplicas :=
+  Asts.C07_legacy_boundary_iff v cur upd pods f r hr h0 hwf hst hru hne h
+
+/-- A block without partition value, or no block under a strategy other than RollingUpdate (OnDelete or an unknown
+    string): every created pod is built from the update revision. -/
+theorem create_revision_no_partition (v : SetView) (cur upd : String) (pods : List Pod) (f : Faults) (r : Int)
+    (hr : v.replicas = some r) (h0 : 0 ≤ r) (hwf : wfSnapshot pods = true)
+    (hru : v.ru = some none ∨ (v.ru = none ∧ v.strat ≠ .rolling)) {o : Int} {rev : String}
+    (h : Action.create o rev ∈ (updateStatefulSet v cur upd pods f).1.acts) : rev = upd :=
+  C07_create_no_partition v cur upd pods f r hr h0 hwf hru h
+
+/-- the model's partition is the spec's raw partition clamped at 0 -/
+theorem partOf_eq_max (v : SetView) : partOf v = max 0 (partitionOf v) := Asts.partOf_eq_max v
+
+/-- hence the raw partition never exceeds the one the model walks down to -/
+theorem partitionOf_le_partOf (v : SetView) : partitionOf v ≤ partOf v := Asts.partitionOf_le_partOf v
+
+/-! ### non-vacuity: `D = [0, 2, 3]` (slot 1), partition 2, revisions "a" → "b" -/
+
+private def pod (n : Nat) (o : Int) (rv : String) : Pod :=
+  { id := n, ord := o, phase := .running, ready := true, terminating := false, rev := rv, idOk := true, stOk := true }
+
+private def v0 : SetView :=
+  { replicas := some 3, slots := [1], parallel := true, strat := .rolling, ru := some (some 2),
+    deleting := false, generation := 1, stCurrentReplicas := 0 }
+
+/-- the hypotheses hold on a concrete snapshot, and the walk deletes from the top: ordinal 3 first; once 3 is updated,
+    ordinal 2 (the partition); then nothing, ordinal 0 being below the partition -/
+example : v0.replicas = some 3 ∧ wfSnapshot [pod 0 0 "a", pod 1 2 "a", pod 2 3 "a"] = true ∧
+    (updateStatefulSet v0 "a" "b" [pod 0 0 "a", pod 1 2 "a", pod 2 3 "a"] []).1.acts = [.delete 3 2 .update] ∧
+    (updateStatefulSet v0 "a" "b" [pod 0 0 "a", pod 1 2 "a", pod 2 3 "b"] []).1.acts = [.delete 2 1 .update] ∧
+    (updateStatefulSet v0 "a" "b" [pod 0 0 "a", pod 1 2 "b", pod 2 3 "b"] []).1.acts = [] := by decide
+
+/-- creates on both sides of the partition, in one Parallel reconcile -/
+example : (updateStatefulSet v0 "a" "b" [pod 0 7 "a"] []).1.acts
+    = [.create 0 "a", .create 2 "b", .create 3 "b", .delete 7 0 .scaleDown] := by decide
+
+/-- OnDelete: nothing is deleted for its revision -/
+example : (updateStatefulSet { v0 with strat := .onDelete } "a" "b" [pod 0 0 "a", pod 1 2 "a", pod 2 3 "a"] []).1.acts
+    = [] := by decide
+
+/-- the legacy boundary: no block, `status.currentReplicas = 2` -/
+example : (updateStatefulSet { v0 with ru := none, stCurrentReplicas := 2 } "a" "b" [] []).1.acts
+    = [.create 0 "a", .create 2 "b", .create 3 "b"] := by decide
 
 end Asts.C07
